@@ -117,6 +117,8 @@ pub struct Sub {
     pub qos_hist: Vec<(usize, u8)>,
     /// Restored from a saved session (not subscribed on this connection).
     pub restored: bool,
+    /// The one-off retained replay of this subscription is certainly over.
+    pub replay_closed: bool,
 }
 
 #[derive(Clone, Debug, PartialEq, Eq)]
@@ -738,6 +740,7 @@ impl Spec {
                                 unsub_after_same_batch_match: false,
                                 qos_hist: vec![(t0, *qos)],
                                 restored: false,
+                                replay_closed: false,
                             });
                             for pv in self.conns[c].posvecs.iter_mut() {
                                 pv.pos.push(pos);
